@@ -32,6 +32,18 @@ fn lit_meta(w: &mut ZW) {
     rec(w, "lit_meta()".into());
 }
 
+// user-named capture groups delivered as a slice: one element per group, also when two named
+// groups follow each other directly
+#[when(regex = r"^(?P<name>\w+) is (?P<age>\d+) years old$")]
+fn named_slice(w: &mut ZW, v: &[String]) {
+    rec(w, format!("named_slice({v:?})"));
+}
+
+#[then(regex = r"^offset (?P<sign>-?)(?P<num>\d+)$")]
+async fn named_adjacent(w: &mut ZW, v: &[String]) {
+    rec(w, format!("named_adjacent({v:?})"));
+}
+
 // the same attribute on two functions (copy-paste): both are registered, the step is ambiguous
 #[given("twice defined")]
 fn twice_a(w: &mut ZW) {
@@ -263,6 +275,8 @@ pub fn entries() -> Vec<Entry> {
         Entry { func: "lit_given", kw: Given, re: r"^a literal step$", expect: |_, _| Some("lit_given()".into()), templates: &["a literal step"] },
         Entry { func: "lit_when", kw: When, re: r"^a literal step$", expect: |_, _| Some("lit_when()".into()), templates: &["a literal step"] },
         Entry { func: "lit_meta", kw: Then, re: r"^price is \$5\.00 \(approx\.\) \[x\]\*$", expect: |_, _| Some("lit_meta()".into()), templates: &["price is $5.00 (approx.) [x]*"] },
+        Entry { func: "named_slice", kw: When, re: r"^(?P<name>\w+) is (?P<age>\d+) years old$", expect: |c, _| Some(format!("named_slice({:?})", vec![g(c, 1).to_string(), g(c, 2).to_string()])), templates: &["{w} is {n} years old"] },
+        Entry { func: "named_adjacent", kw: Then, re: r"^offset (?P<sign>-?)(?P<num>\d+)$", expect: |c, _| Some(format!("named_adjacent({:?})", vec![g(c, 1).to_string(), g(c, 2).to_string()])), templates: &["offset {n}", "offset -{n}"] },
         Entry { func: "twice_a", kw: Given, re: r"^twice defined$", expect: |_, _| Some("twice_a()".into()), templates: &["twice defined"] },
         Entry { func: "twice_b", kw: Given, re: r"^twice defined$", expect: |_, _| Some("twice_b()".into()), templates: &["twice defined"] },
         Entry { func: "lit_meta2", kw: When, re: r"^yes\|no \+ maybe\? \{d\} \^e\\f # & g-h ~ ok$", expect: |_, _| Some("lit_meta2()".into()), templates: &["yes|no + maybe? {d} ^e\\f # & g-h ~ ok"] },
